@@ -1,11 +1,10 @@
 (* Properties/C03.v -- Signing yields a well-formed signed image that
    firmware-style checks accept. Theorems only. What is proved here concerns
-   the bytes; that the embedded signatures verify is C02/C04/C05, and the
-   re-parsed layout of concrete outputs is established by computation on every
-   explored case (check_signed_image). *)
+   the bytes and what Parse reads back from them; that the embedded signatures
+   verify is C02/C04/C05. *)
 From Coq Require Import Bool List NArith Lia.
 From Coq.Strings Require Import Byte.
-From GoUefi Require Import Base.Bytes Base.Outcome Base.Reader Model.WinCert Model.PE Proofs.PEProofs Proofs.PESignProofs.
+From GoUefi Require Import Base.Bytes Base.Outcome Base.Reader Model.WinCert Model.PE Proofs.PEProofs Proofs.PESignProofs Proofs.PEReparse.
 Import ListNotations.
 Local Open Scope N_scope.
 
@@ -78,6 +77,58 @@ Theorem C03_digest_invariant : forall L img L' out,
   spec_content L' out = spec_content L img.
 Proof. exact digest_invariant. Qed.
 
+(* Parse of the bytes Bytes() emits for any state that satisfies the directory
+   invariant: the same directory entry, the same table, and the digest content of
+   the image that was signed (the optional header must hold the directory entry,
+   which debug/pe requires of every image it accepts) *)
+Theorem C03_reparse : forall st,
+  let L := pe_L st in let out := pe_bytes st in
+  wf_layout L -> read_layout (pe_img st) = Some L -> dd_inv st -> blen out < 4294967296 ->
+  l_dd4 L + 8 <= l_opt L + l_soo L -> l_certsize L <= blen (pe_table st) ->
+  exists st', pe_parse true out = Ret st' /\
+    pe_va st' = pe_va st /\ pe_ddsize st' = pe_ddsize st /\ pe_optdd st' = pe_optdd st /\ pe_table st' = pe_table st /\
+    hash_content st' = Some (spec_content L (pe_img st)) /\ wf_layout (pe_L st').
+Proof. exact reparse. Qed.
+
+(* end to end, for every well-formed image without signatures and every non-empty
+   signing history within 4 GiB: Parse(Sign...(Parse img)).Bytes()) lists exactly
+   one entry per signature behind the end of the old file padded to 8, and
+   hashes to what the unsigned image hashes to *)
+Theorem C03_resign_unsigned : forall img L st0 b blobs,
+  wf_image img L -> l_certsize L = 0 -> pe_parse true img = Ret st0 ->
+  l_dd4 L + 8 <= l_opt L + l_soo L ->
+  l_size L + 8 + total_entries (b :: blobs) < 4294967296 ->
+  Forall (fun x => 8 + blen x < 4294967296) (b :: blobs) ->
+  let st := fold_left append_signature (b :: blobs) st0 in
+  exists st', pe_parse true (pe_bytes st) = Ret st' /\
+    pe_table st' = flat_map entry_of (b :: blobs) /\
+    pe_va st' = l_size L + pad8 (l_size L) /\ pe_ddsize st' = blen (flat_map entry_of (b :: blobs)) /\
+    hash_content st' = hash_content st0 /\ wf_layout (pe_L st').
+Proof. exact resign_unsigned. Qed.
+
+(* ... and for every well-formed image that already carries a table: the old
+   entries, then the new ones, at the old address, same digest content *)
+Theorem C03_resign_signed : forall img L st0 blobs,
+  wf_image img L -> l_certsize L <> 0 -> pe_parse true img = Ret st0 ->
+  l_dd4 L + 8 <= l_opt L + l_soo L ->
+  blen img + total_entries blobs < 4294967296 ->
+  Forall (fun x => 8 + blen x < 4294967296) blobs ->
+  let st := fold_left append_signature blobs st0 in
+  exists st', pe_parse true (pe_bytes st) = Ret st' /\
+    pe_table st' = pe_table st0 ++ flat_map entry_of blobs /\ pe_va st' = l_va L /\
+    hash_content st' = hash_content st0 /\ wf_layout (pe_L st').
+Proof. exact resign_signed. Qed.
+
+(* Bytes() of a freshly parsed well-formed image: the image itself, zero padded to a
+   multiple of 8 when it carries no table *)
+Theorem C03_bytes_of_parsed : forall img L st0, wf_image img L -> pe_parse true img = Ret st0 ->
+  pe_bytes st0 = img ++ zeros (N.to_nat (if l_certsize L =? 0 then pad8 (l_size L) else 0)).
+Proof. exact bytes_of_parsed. Qed.
+
+Print Assumptions C03_bytes_of_parsed.
+Print Assumptions C03_reparse.
+Print Assumptions C03_resign_unsigned.
+Print Assumptions C03_resign_signed.
 Print Assumptions C03_prefix.
 Print Assumptions C03_table.
 Print Assumptions C03_entry.
